@@ -6,6 +6,7 @@ with a failure injected after any prefix.  `failAt m w k` runs the first `k` ste
 plan and then the `finally` clause.
 -/
 import DefconModel.Lemmas.SaveSteps
+import DefconModel.Lemmas.SaveStepsRetry
 
 namespace DefconModel.Props.C18
 open DefconModel DefconModel.SaveSteps
@@ -214,5 +215,38 @@ theorem retry_persists_partial (m : Mode) (w : World) (h : w.temp = none) (ha : 
   | mk f d t a g =>
     simp only at h ha hg; subst h; subst ha; subst hg
     cases m <;> simp
+
+/-- **A failure while the components are being written in place is harmless.**  Components (info, groups, kerning,
+lib, features, …) go straight into the font's own UFO and each flag is cleared only after its write: whichever of
+these writes fails (or the opening of the glyph set right after them), the retry writes exactly what the failed
+attempt had not written yet, and the world after the retry is the world an undisturbed save produces — every
+file, every flag.  (F19 begins after this point: a glyph file written and its flag cleared before the listing.) -/
+theorem retry_after_component_failure (w : World) (k : Nat) (ht : w.temp = none) (ha : w.aside = none)
+    (hg : w.gsContents = []) (hk : k ≤ (dirtyComps w.font).length) :
+    save .inPlace (failAt .inPlace w k) = save .inPlace w := by
+  have htake : (plan w.font .inPlace).take k = ((dirtyComps w.font).take k).map Step.writeComp := by
+    rw [plan_inPlace, List.take_append_of_le_length (by simpa using hk), List.map_take]
+  obtain ⟨hf, h1, h2, h3⟩ := runSteps_writeComps w ((dirtyComps w.font).take k)
+  have hw1 : failAt .inPlace w k = runSteps .inPlace w (((dirtyComps w.font).take k).map Step.writeComp) := by
+    unfold failAt
+    rw [htake, recover_inPlace]
+    exact cleanup_eq _ (h1.trans ht) (h2.trans ha) (h3.trans hg)
+  have hplan1 : plan (failAt .inPlace w k).font .inPlace =
+      ((dirtyComps w.font).drop k).map Step.writeComp ++ glyphPhase w.font := by
+    rw [hw1, hf, plan_inPlace, dirtyComps_after]
+    rfl
+  have hsplit : plan w.font .inPlace = ((dirtyComps w.font).take k).map Step.writeComp ++
+      (((dirtyComps w.font).drop k).map Step.writeComp ++ glyphPhase w.font) := by
+    rw [plan_inPlace, ← List.append_assoc, ← List.map_append, List.take_append_drop]
+  have hrun : runSteps .inPlace w (plan w.font .inPlace) =
+      runSteps .inPlace (failAt .inPlace w k) (((dirtyComps w.font).drop k).map Step.writeComp ++ glyphPhase w.font) := by
+    rw [hsplit, runSteps_append, ← hw1]
+  unfold save
+  rw [hplan1, hrun]
+
+/-- the statement applies to the F19 witness font: a failure at its only component write (k = 0, 1) is repaired by
+the retry, the failure after the glyph write (k = 3, `retry_violated_in_place`) is not -/
+example : (dirtyComps w19.font).length = 1 := by decide
+example : reopen (save .inPlace (failAt .inPlace w19 1)) 1 = some ([7, 3], [(1, 6), (0, 4)]) := by decide
 
 end DefconModel.Props.C18
